@@ -539,14 +539,20 @@ def readFmt (suffix : String) : M Fmt :=
 
 /-! ## Spec layer: what a round trip is allowed to change -/
 
+/-- the corner arrays converted to dtype `k`, everything else kept -/
+def TReg.castCorners (k : NK) (s : TReg) : TReg := { s with pmin := s.pmin.cast k, pmax := s.pmax.cast k }
+
+/-- the mesh a reader returns: the same, with the subregion corner arrays in the dtype of
+the corner table -/
+def TMesh.loaded (m : TMesh) : TMesh :=
+  { m with subs := m.subs.map fun p => (p.1, p.2.castCorners (tableKind m)) }
+
 /-- The field a reader returns for the file of `f`, as the property describes it: the same
 state, except that the subregion corner arrays carry the dtype of the corner table, integer
 data arrive as floats, and the (unsaved) component-to-axis mapping is the default one. -/
 def loaded (f : TFld) : TFld :=
   { f with
-    mesh := { f.mesh with
-      subs := f.mesh.subs.map fun p =>
-        (p.1, { p.2 with pmin := p.2.pmin.cast (tableKind f.mesh), pmax := p.2.pmax.cast (tableKind f.mesh) }) }
+    mesh := f.mesh.loaded
     data := { f.data with buf := f.data.buf.upcast }
     vmap := defaultVmap f.nvdim f.mesh.region.dims f.vdims }
 
@@ -554,13 +560,16 @@ def loaded (f : TFld) : TFld :=
 def TReg.sameValues (a b : TReg) : Prop :=
   a.pmin.vals = b.pmin.vals ∧ a.pmax.vals = b.pmax.vals ∧ a.dims = b.dims ∧ a.units = b.units ∧ a.tol = b.tol
 
-/-! ## Invariants of states built by the constructors -/
+/-! ## Invariants of states built by the constructors (decidable: the harness evaluates
+them on the states of real fields, the theorems take them as hypotheses) -/
 
 /-- what `Region.__init__` guarantees -/
-def TReg.Inv (r : TReg) : Prop :=
-  0 < r.pmin.length ∧ r.pmax.length = r.pmin.length ∧ r.pmin.kind = r.pmax.kind ∧
-  r.dims.length = r.pmin.length ∧ r.units.length = r.pmin.length ∧ hasDup r.dims = false ∧
-  ∀ a, a < r.pmin.length → r.pmin.vals.getD a 0 < r.pmax.vals.getD a 0
+def TReg.invB (r : TReg) : Bool :=
+  decide (0 < r.pmin.length) && decide (r.pmax.length = r.pmin.length) && decide (r.pmin.kind = r.pmax.kind) &&
+  decide (r.dims.length = r.pmin.length) && decide (r.units.length = r.pmin.length) && !hasDup r.dims &&
+  allLt r.pmin.length fun a => decide (r.pmin.vals.getD a 0 < r.pmax.vals.getD a 0)
+
+def TReg.Inv (r : TReg) : Prop := r.invB = true
 
 /-- the region `Region(p1=pmin, p2=pmax)` with default names, units, tolerance: how the
 reader presents a stored corner pair to the `subregions` setter -/
@@ -568,26 +577,33 @@ def plainRegion (pmin pmax : List Rat) : Region :=
   { pmin := pmin, pmax := pmax, dims := Region.defaultDims pmin.length,
     units := List.replicate pmin.length "m", tol := TReg.defaultTol.val }
 
-/-- what `Mesh.__init__` guarantees (bc lower-cased and checked, counts positive, every
-subregion rebuilt with the region's names/units/tolerance), plus: the subregion corners pass
-the setter's three tests when presented as a plain corner pair -/
-def TMesh.Inv (m : TMesh) : Prop :=
-  m.region.Inv ∧ m.n.length = m.region.ndim ∧ (∀ k ∈ m.n, 0 < k) ∧
-  m.bc.toLower = m.bc ∧ Mesh.bcOk m.region.dims m.bc = true ∧
-  (m.subs.map fun p => p.1).Nodup ∧
-  ∀ p ∈ m.subs, p.2.pmin.length = m.region.ndim ∧ p.2.pmax.length = m.region.ndim ∧
-    p.2.pmin.kind = p.2.pmax.kind ∧
-    p.2.dims = m.region.dims ∧ p.2.units = m.region.units ∧ p.2.tol = m.region.tol ∧
-    (∀ a, a < m.region.ndim → p.2.pmin.vals.getD a 0 < p.2.pmax.vals.getD a 0) ∧
-    subAccept m.region.toRegion m.n (plainRegion p.2.pmin.vals p.2.pmax.vals) = true
+/-- one subregion of a mesh: rebuilt by the setter with the region's names / units /
+tolerance, corners ordered, and accepted by the setter's three tests when presented as a
+plain corner pair -/
+def subInvB (r : TReg) (n : List Nat) (s : TReg) : Bool :=
+  decide (s.pmin.length = r.ndim) && decide (s.pmax.length = r.ndim) && decide (s.pmin.kind = s.pmax.kind) &&
+  decide (s.dims = r.dims) && decide (s.units = r.units) && decide (s.tol = r.tol) &&
+  (allLt r.ndim fun a => decide (s.pmin.vals.getD a 0 < s.pmax.vals.getD a 0)) &&
+  subAccept r.toRegion n (plainRegion s.pmin.vals s.pmax.vals)
+
+/-- what `Mesh.__init__` guarantees (counts positive, bc lower-cased and checked, distinct
+subregion names, every subregion as above) -/
+def TMesh.invB (m : TMesh) : Bool :=
+  m.region.invB && decide (m.n.length = m.region.ndim) && m.n.all (fun k => decide (0 < k)) &&
+  decide (m.bc.toLower = m.bc) && Mesh.bcOk m.region.dims m.bc &&
+  !hasDup (m.subs.map fun p => p.1) && m.subs.all fun p => subInvB m.region m.n p.2
+
+def TMesh.Inv (m : TMesh) : Prop := m.invB = true
 
 /-- what `Field.__init__` guarantees -/
-def TFld.Inv (f : TFld) : Prop :=
-  f.mesh.Inv ∧ 1 ≤ f.nvdim ∧
-  f.data.shape = f.mesh.n ++ [f.nvdim] ∧ f.data.buf.length = natProd (f.mesh.n ++ [f.nvdim]) ∧
-  f.valid.shape = f.mesh.n ∧ f.valid.buf.length = natProd f.mesh.n ∧
+def TFld.invB (f : TFld) : Bool :=
+  f.mesh.invB && decide (1 ≤ f.nvdim) &&
+  decide (f.data.shape = f.mesh.n ++ [f.nvdim]) && decide (f.data.buf.length = natProd (f.mesh.n ++ [f.nvdim])) &&
+  decide (f.valid.shape = f.mesh.n) && decide (f.valid.buf.length = natProd f.mesh.n) &&
   (match f.vdims with
-   | none => f.nvdim = 1
-   | some l => l ≠ [] ∧ l.length = f.nvdim ∧ hasDup l = false)
+   | none => decide (f.nvdim = 1)
+   | some l => !l.isEmpty && decide (l.length = f.nvdim) && !hasDup l)
+
+def TFld.Inv (f : TFld) : Prop := f.invB = true
 
 end DFV.C10
